@@ -129,6 +129,8 @@ class LPoly():
         Conjugation of a Laurent polynomial maps f(w) to f(w^-1).
         '''
         dmin = -self.dmax
+        if self.iszero:
+            return LPoly([], dmin)
         coefs = self.coefs[::-1]
         return LPoly(coefs, dmin)
 
